@@ -138,7 +138,7 @@ PROPS = {
     ),
     'C15': dict(
         modules=['NitroVerif.Props.C15'],
-        iruns=[('skipconc', gens.gen_skipconc, 250, 8000)],
+        iruns=[('skipconc', gens.gen_skipconc, 150, 6000), ('skipconc', gens.gen_skipconc_scan, 100, 4000)],
         level='proof',
         level_text='C15_monotone_partial, C15_research_ge_partial (Next never moves backwards on any of its three paths), C15_seek_ge_partial, C15_seek_no_stable_between are proved for every interleaving on the concurrent model. PARTIAL: whole-scan completeness/presence (C15_complete, C15_present) are not proved; steered schedules with iterators parked on nodes that are deleted (helpDelete success and failure paths) are validated against the model',
         trusted=['Lean 4 kernel', 'tools/gofacts skeleton of skiplist Iterator.Next', 'steered iterator/insert/delete schedules validated step by step'],
